@@ -1,11 +1,58 @@
 (** * C02 - the table is a faithful, gap-free drawing of the recipe tree.
-    Property theorems only; proofs live in Proofs/Layout*.v. *)
-From Coq Require Import List Arith NArith Bool.
-From RG Require Import Model.Table Model.Layout.
-Import ListNotations.
+    Property theorems only; proofs live in Proofs/Layout*.v.
 
-Example C02_smoke :
-  exists tb, recipe_tree_to_table (LStep [LLeaf false; LSub (LLeaf true) 1 true]) = Ok tb
-             /\ t_rows tb = 3%N /\ t_cols tb = 2%N.
-Proof. eexists. vm_compute. repeat split; reflexivity. Qed.
-Print Assumptions C02_smoke.
+    [recipe_tree_to_table] is the model (Model/Table.v, Model/Layout.v) of
+    recipe_grid.renderer.recipe_to_table.recipe_tree_to_table; [wf] says: every
+    step has an input, every sub recipe an output name, multi-output sub recipes
+    only at the root. *)
+From Coq Require Import List Arith NArith Bool.
+From RG Require Import Model.Recipe Model.Table Model.Layout Spec.LayoutSpec
+  Proofs.LayoutTiling Proofs.LayoutArith.
+Import ListNotations.
+Local Open Scope N_scope.
+
+(** (1) For every well-formed tree the code's table construction succeeds (no
+    MissingCellError, no inconsistent table) and the table is a complete rectangle:
+    every cell has positive spans and lies inside rows x columns, and every slot is
+    covered by exactly one cell. *)
+Theorem C02_tiling : forall t : ltree,
+  wf t = true ->
+  exists tb, recipe_tree_to_table t = Ok tb
+             /\ 0 < t_rows tb /\ 0 < t_cols tb
+             /\ (forall e, In e (t_cells tb) ->
+                   1 <= e_rows e /\ 1 <= e_cols e
+                   /\ e_row e + e_rows e <= t_rows tb /\ e_col e + e_cols e <= t_cols tb)
+             /\ (forall r c, r < t_rows tb -> c < t_cols tb ->
+                   count_cover (t_cells tb) r c = 1%nat).
+Proof.
+  intros t Hwf. destruct (layout_ok t true [] Hwf) as [E (HR & HC & Hb & Hc)].
+  exists (alayout true [] t). repeat split; try assumption; apply Hb; assumption.
+Qed.
+Print Assumptions C02_tiling.
+
+(** The same for recipe nodes (Model/Recipe.v) through their skeleton. *)
+Theorem C02_tiling_node : forall n : node,
+  wf (ltree_of_node n) = true ->
+  exists tb, recipe_tree_to_table (ltree_of_node n) = Ok tb /\ TilingT tb.
+Proof.
+  intros n Hwf. destruct (layout_ok _ true [] Hwf) as [E T]. eauto.
+Qed.
+Print Assumptions C02_tiling_node.
+
+(** Non-vacuity: a ragged tree with a titled sub recipe inside a wider sibling, nested
+    (titled in untitled) sub recipes, references, under a multi-output root. *)
+Definition C02_example_tree : ltree :=
+  LSub (LStep [LLeaf false;
+               LSub (LStep [LLeaf true; LLeaf false]) 1 true;
+               LStep [LStep [LSub (LSub (LLeaf false) 1 false) 1 true; LLeaf false]];
+               LSub (LLeaf false) 1 false]) 2 true.
+
+Example C02_example_wf : wf C02_example_tree = true.
+Proof. reflexivity. Qed.
+Print Assumptions C02_example_wf.
+
+Example C02_example_table :
+  exists tb, recipe_tree_to_table C02_example_tree = Ok tb
+             /\ t_rows tb = 8 /\ t_cols tb = 5 /\ length (t_cells tb) = 13%nat.
+Proof. eexists. split; [vm_compute; reflexivity|]. vm_compute. repeat split; reflexivity. Qed.
+Print Assumptions C02_example_table.
